@@ -43,18 +43,6 @@ def obsSpec (tv : Spec.TV) : String :=
   | v :: rest => join ((v :: v :: rest).map numOut)
   | [] => "?"
 
-def outOfRange (t : Int) : Bool := t.natAbs > 8640000000000000
-
-/-- region: the value reaching TimeClip is finite but beyond ±8.64e15 -/
-def clipFires (raw : Option Int) : Bool :=
-  match raw with
-  | some t => outOfRange t
-  | none => false
-
-def devList (ds : List String) : String :=
-  let ds := ds.eraseDups
-  if ds.isEmpty then "-" else ",".intercalate ds
-
 def setterM? : String → Option Setter
   | "Milliseconds" => some .ms | "Seconds" => some .sec | "Minutes" => some .min | "Hours" => some .hour
   | "Date" => some .date | "Month" => some .month | "FullYear" => some .year | "time" => some .time | _ => none
@@ -70,65 +58,37 @@ def step? (w : String) : Option (Setter × List FV) :=
     pure (k, as)
   | _ => none
 
-/-- lock-step run of model and spec over a history, collecting deviation regions -/
-def runBoth (d : DateObj) (tv : Spec.TV) : List (Setter × List FV) → List String → (DateObj × List Num) × (Spec.TV × List Spec.TV) × List String
-  | [], devs => ((d, []), (tv, []), devs)
-  | (k, a) :: rest, devs =>
-    let raw := Spec.setUTCRaw (toSpecSetter k) tv a
-    let devs := if clipFires raw then devs ++ ["no_timeclip"] else devs
-    let devs := if k = .year ∧ tv.isNone ∧ raw.isSome then devs ++ ["setfullyear_invalid"] else devs
-    let devs := if k = .time ∧ d.isNaN ∧ raw.isSome then devs ++ ["settime_sticky_invalid"] else devs
-    let (d', r) := setUTC k d a
-    let tv' := Spec.setUTC (toSpecSetter k) tv a
-    let ((df, rs), (tf, ss), devs) := runBoth d' tv' rest devs
-    ((df, r :: rs), (tf, tv' :: ss), devs)
-
-def isoDev (v : FV) : List String :=
-  match Spec.field? v with
-  | none => []
-  | some t =>
-    if outOfRange t then ["no_timeclip"]
-    else
-      let y := Spec.YearFromTime t
-      if 0 ≤ y ∧ y ≤ 9999 then [] else ["iso_expanded_year"]
-
-def utcDev (args : List FV) : List String :=
-  let d1 := if clipFires (Spec.dateUTCRaw args) then ["no_timeclip"] else []
-  let d2 := match args.head? with
-    | some y => match Spec.field? y with
-      | some i => if 0 ≤ i ∧ i ≤ 99 ∧ !(le zero y && le y (.fin false 99 0)) ∧ (Spec.dateUTCRaw args).isSome then ["twodigit_fraction"] else []
-      | none => []
-    | none => []
-  d1 ++ d2
+/-- No deviation region is left for this property: every request is expected to agree with the spec. -/
+def noDev : String := "-"
 
 def reply (m s : String) (dev : String) : String := m ++ " " ++ s ++ " " ++ dev
 
 def handle (ws : List String) : String :=
   match ws with
   | ["obs", a] => match f64? a with
-    | some v =>
-      let dev := if clipFires (Spec.field? v) then ["no_timeclip"] else []
-      reply (obsModel (newDate v)) (obsSpec (Spec.clipNumber v)) (devList dev)
+    | some v => reply (obsModel (newDate v)) (obsSpec (Spec.clipNumber v)) noDev
     | none => "bad-op"
   | ["iso", a] => match f64? a with
-    | some v =>
-      let dev := isoDev v ++ (if (Spec.field? v).isNone then ["iso_invalid_no_throw"] else [])
-      reply (strOut (toISOString (newDate v))) (strOutS (Spec.toISOString (Spec.clipNumber v))) (devList dev)
+    | some v => reply (strOut (toISOString (newDate v))) (strOutS (Spec.toISOString (Spec.clipNumber v))) noDev
     | none => "bad-op"
   | ["json", a] => match f64? a with
-    | some v => reply (strOut (toJSON (newDate v))) (strOutS (Spec.toJSON (Spec.clipNumber v))) (devList (isoDev v))
+    | some v => reply (strOut (toJSON (newDate v))) (strOutS (Spec.toJSON (Spec.clipNumber v))) noDev
     | none => "bad-op"
   | ["rt", a] => match f64? a with
     | some v =>
+      -- Date.parse(new Date(v).toISOString()): toISOString throws first on an invalid date
+      let m := match toISOString (newDate v) with
+        | .ok _ => numOut (parseOfISO (newDate v))
+        | other => strOut other
       let s := match Spec.clipNumber v with
-        | some t => Spec.parseOfISO t
-        | none => none
-      reply (numOut (parseOfISO (newDate v))) (numOut s) (devList (isoDev v))
+        | some t => numOut (Spec.parseOfISO t)
+        | none => strOutS (Spec.toISOString none)
+      reply m s noDev
     | none => "bad-op"
   | "utc" :: as => match as.mapM f64? with
     | some args =>
       if args.length < 2 then "bad-op" else
-      reply (numOut (newDateTime args)) (numOut (Spec.dateUTC args)) (devList (utcDev args))
+      reply (numOut (newDateTime args)) (numOut (Spec.dateUTC args)) noDev
     | none => "bad-op"
   | "ctor" :: as => match as.mapM f64? with
     | some args =>
@@ -136,13 +96,13 @@ def handle (ws : List String) : String :=
       let m := match newDateTime args with
         | some i => newDate (ofInt i)
         | none => newDate .nan
-      reply (obsModel m) (obsSpec (Spec.dateUTC args)) (devList (utcDev args))
+      reply (obsModel m) (obsSpec (Spec.dateUTC args)) noDev
     | none => "bad-op"
   | "set" :: a :: steps => match f64? a, steps.mapM step? with
     | some v, some hs =>
-      let dev0 := if clipFires (Spec.field? v) then ["no_timeclip"] else []
-      let ((df, rs), (tf, ss), devs) := runBoth (newDate v) (Spec.clipNumber v) hs dev0
-      reply (join (rs.map numOut) ++ "|" ++ obsModel df) (join (ss.map numOut) ++ "|" ++ obsSpec tf) (devList devs)
+      let (df, rs) := runSetters (newDate v) hs
+      let (tf, ss) := Spec.runSetters (Spec.clipNumber v) (hs.map (fun s => (toSpecSetter s.1, s.2)))
+      reply (join (rs.map numOut) ++ "|" ++ obsModel df) (join (ss.map numOut) ++ "|" ++ obsSpec tf) noDev
     | _, _ => "bad-op"
   | _ => "bad-op"
 
